@@ -1,14 +1,24 @@
 //! C02: Term::eq / cmp / hash across every constructible Term implementation, against the Coq
-//! model (Common/Term.v) and against the laws themselves (oracle).
+//! model (Common/Term.v) and against the laws themselves (oracle).  Also: the accessors, the component iterators
+//! (atoms / constituents and their consuming variants), to_triple, the std operators between DIFFERENT term types, the
+//! string wrappers' std traits, graph_name_eq, term -> native conversions, and every other way of building a term.
+use rdf_types::vocabulary::{BlankIdVocabulary, BlankIdVocabularyMut, IriVocabulary, IriVocabularyMut, LanguageTagVocabulary, LanguageTagVocabularyMut, LiteralVocabulary, LiteralVocabularyMut};
 use rio_api::model as rio;
 use sophia_api::ns::NsTerm;
-use sophia_api::term::{BnodeId, CmpTerm, FromTerm, IriRef, SimpleTerm, Term, TermKind, TryFromTerm, VarName};
+use sophia_api::quad::Quad as _;
+use sophia_api::term::{graph_name_eq, BnodeId, CmpTerm, FromTerm, IriRef, LanguageTag, SimpleTerm, Term, TermKind, TryFromTerm, VarName};
+use sophia_api::triple::Triple as _;
 use sophia_iri::Iri;
+use sophia_jsonld::RdfTerm;
+use sophia_jsonld::vocabulary::{ArcBnode, ArcIri, ArcTag, ArcVoc};
 use sophia_rio::model::Trusted;
 use sophia_sparql::ResultTerm;
 use sophia_term::{ArcStrStash, ArcTerm, GenericLiteral, RcStrStash, RcTerm};
+use std::borrow::Borrow;
 use std::cmp::Ordering;
 use std::hash::Hasher;
+use std::rc::Rc;
+use std::sync::Arc;
 use verif_harness::*;
 
 #[derive(Default)]
@@ -27,7 +37,7 @@ enum Rep<'a> {
     I32(i32), Isize(isize), Usize(usize), F64(f64), Bool(bool), Str(&'a str),
     RioNamed(Trusted<rio::NamedNode<'a>>), RioBlank(Trusted<rio::BlankNode<'a>>), RioVar(Trusted<rio::Variable<'a>>), RioLit(Trusted<rio::Literal<'a>>),
     RioTerm(Trusted<rio::Term<'a>>), RioGen(Trusted<rio::GeneralizedTerm<'a>>), RioGName(Trusted<rio::GraphName<'a>>),
-    Result(ResultTerm), ResultCached(ResultTerm), JBn(sophia_jsonld::vocabulary::ArcBnode),
+    Result(ResultTerm), ResultCached(ResultTerm), JBn(sophia_jsonld::vocabulary::ArcBnode), JRdf(RdfTerm),
 }
 macro_rules! with_rep {
     ($r:expr, $x:ident => $body:expr) => {
@@ -37,7 +47,7 @@ macro_rules! with_rep {
             Rep::GenLit($x) => $body, Rep::Ns($x) => $body, Rep::IriW($x) => $body, Rep::IriRefW($x) => $body, Rep::BnodeW($x) => $body, Rep::VarW($x) => $body,
             Rep::I32($x) => $body, Rep::Isize($x) => $body, Rep::Usize($x) => $body, Rep::F64($x) => $body, Rep::Bool($x) => $body, Rep::Str($x) => $body,
             Rep::RioNamed($x) => $body, Rep::RioBlank($x) => $body, Rep::RioVar($x) => $body, Rep::RioLit($x) => $body,
-            Rep::RioTerm($x) => $body, Rep::RioGen($x) => $body, Rep::RioGName($x) => $body, Rep::Result($x) => $body, Rep::ResultCached($x) => $body, Rep::JBn($x) => $body,
+            Rep::RioTerm($x) => $body, Rep::RioGen($x) => $body, Rep::RioGName($x) => $body, Rep::Result($x) => $body, Rep::ResultCached($x) => $body, Rep::JBn($x) => $body, Rep::JRdf($x) => $body,
         }
     };
 }
@@ -48,7 +58,7 @@ fn rep_name(r: &Rep) -> &'static str {
         Rep::GenLit(_) => "GenericLiteral", Rep::Ns(_) => "NsTerm", Rep::IriW(_) => "Iri<String>", Rep::IriRefW(_) => "IriRef<&str>", Rep::BnodeW(_) => "BnodeId", Rep::VarW(_) => "VarName",
         Rep::I32(_) => "i32", Rep::Isize(_) => "isize", Rep::Usize(_) => "usize", Rep::F64(_) => "f64", Rep::Bool(_) => "bool", Rep::Str(_) => "str",
         Rep::RioNamed(_) => "rio::NamedNode", Rep::RioBlank(_) => "rio::BlankNode", Rep::RioVar(_) => "rio::Variable", Rep::RioLit(_) => "rio::Literal",
-        Rep::RioTerm(_) => "rio::Term", Rep::RioGen(_) => "rio::GeneralizedTerm", Rep::RioGName(_) => "rio::GraphName", Rep::Result(_) => "ResultTerm", Rep::ResultCached(_) => "ResultTerm(value cached)", Rep::JBn(_) => "jsonld::vocabulary::ArcBnode",
+        Rep::RioTerm(_) => "rio::Term", Rep::RioGen(_) => "rio::GeneralizedTerm", Rep::RioGName(_) => "rio::GraphName", Rep::Result(_) => "ResultTerm", Rep::ResultCached(_) => "ResultTerm(value cached)", Rep::JBn(_) => "jsonld::vocabulary::ArcBnode", Rep::JRdf(_) => "jsonld::RdfTerm",
     }
 }
 
@@ -66,6 +76,81 @@ fn rio_lit<'a>(st: &'a ST) -> Option<rio::Literal<'a>> {
     }
 }
 
+
+/// rio's strict RDF-star shapes (arena: leaked boxes, a few dozen small values per run)
+fn rio_strict<'a>(st: &'a ST) -> Option<rio::Term<'a>> {
+    match st {
+        SimpleTerm::Iri(i) => Some(rio::Term::NamedNode(rio::NamedNode { iri: i.as_str() })),
+        SimpleTerm::BlankNode(b) => Some(rio::Term::BlankNode(rio::BlankNode { id: b.as_str() })),
+        SimpleTerm::LiteralDatatype(..) | SimpleTerm::LiteralLanguage(..) => rio_lit(st).map(rio::Term::Literal),
+        SimpleTerm::Triple(tr) => rio_triple(tr).map(rio::Term::Triple),
+        SimpleTerm::Variable(_) => None,
+    }
+}
+fn rio_triple<'a>(tr: &'a [ST; 3]) -> Option<&'a rio::Triple<'a>> {
+    let subject = match &tr[0] {
+        SimpleTerm::Iri(i) => rio::Subject::NamedNode(rio::NamedNode { iri: i.as_str() }),
+        SimpleTerm::BlankNode(b) => rio::Subject::BlankNode(rio::BlankNode { id: b.as_str() }),
+        SimpleTerm::Triple(t) => rio::Subject::Triple(rio_triple(t)?),
+        _ => return None,
+    };
+    let predicate = match &tr[1] { SimpleTerm::Iri(i) => rio::NamedNode { iri: i.as_str() }, _ => return None };
+    let object = rio_strict(&tr[2])?;
+    Some(Box::leak(Box::new(rio::Triple { subject, predicate, object })))
+}
+fn rio_gen<'a>(st: &'a ST) -> rio::GeneralizedTerm<'a> {
+    match st {
+        SimpleTerm::Iri(i) => rio::GeneralizedTerm::NamedNode(rio::NamedNode { iri: i.as_str() }),
+        SimpleTerm::BlankNode(b) => rio::GeneralizedTerm::BlankNode(rio::BlankNode { id: b.as_str() }),
+        SimpleTerm::Variable(x) => rio::GeneralizedTerm::Variable(rio::Variable { name: x.as_str() }),
+        SimpleTerm::LiteralDatatype(..) | SimpleTerm::LiteralLanguage(..) => rio::GeneralizedTerm::Literal(rio_lit(st).unwrap()),
+        SimpleTerm::Triple(tr) => rio::GeneralizedTerm::Triple(Box::leak(Box::new([rio_gen(&tr[0]), rio_gen(&tr[1]), rio_gen(&tr[2])]))),
+    }
+}
+fn rio_gname<'a>(st: &'a ST) -> Option<rio::GraphName<'a>> {
+    match st {
+        SimpleTerm::Iri(i) => Some(rio::GraphName::NamedNode(rio::NamedNode { iri: i.as_str() })),
+        SimpleTerm::BlankNode(b) => Some(rio::GraphName::BlankNode(rio::BlankNode { id: b.as_str() })),
+        _ => None,
+    }
+}
+
+/// the JSON-LD adapter term, along each of its `From` impls (first = the one used as a representation)
+fn arc_iri(s: &str) -> Option<ArcIri> { Iri::new(Arc::<str>::from(s)).ok() }
+fn arc_bnode(label: &str) -> Option<ArcBnode> { let full = format!("_:{label}"); rdf_types::BlankId::new(&full).ok().and_then(|id| ArcVoc::default().get_blank_id(id)) }
+fn jrdf_forms(st: &ST) -> Vec<RdfTerm> {
+    use rdf_types::{Id, Literal as RLit, Term as RTerm, literal::Type as RType};
+    match st {
+        SimpleTerm::Iri(i) => arc_iri(i.as_str()).map(|ai| vec![RdfTerm::from(RTerm::Id(Id::Iri(ai.clone()))), RdfTerm::from(Id::Iri(ai.clone())), RdfTerm::from(ai)]).unwrap_or_default(),
+        SimpleTerm::BlankNode(b) => arc_bnode(b.as_str()).map(|bn| vec![RdfTerm::from(RTerm::Id(Id::Blank(bn.clone()))), RdfTerm::from(Id::Blank(bn))]).unwrap_or_default(),
+        SimpleTerm::LiteralDatatype(lex, dt) => arc_iri(dt.as_str()).map(|ai| vec![RdfTerm::from(RTerm::Literal(RLit::new(lex.to_string(), RType::Any(ai))))]).unwrap_or_default(),
+        SimpleTerm::LiteralLanguage(lex, tag) => vec![RdfTerm::from(RTerm::Literal(RLit::new(lex.to_string(), RType::LangString(ArcTag::new_unchecked(Arc::<str>::from(tag.as_str()))))))],
+        _ => vec![],
+    }
+}
+
+/// ArcTerm / RcTerm / ResultTerm assembled with their `From` impls only
+macro_rules! from_parts { ($name:ident, $ty:ident, $w:ident) => {
+    fn $name(st: &ST) -> $ty {
+        match st {
+            SimpleTerm::Iri(i) => $ty::from(IriRef::new_unchecked($w::<str>::from(i.as_str()))),
+            SimpleTerm::BlankNode(b) => $ty::from(BnodeId::new_unchecked($w::<str>::from(b.as_str()))),
+            SimpleTerm::Variable(x) => $ty::from(VarName::new_unchecked($w::<str>::from(x.as_str()))),
+            SimpleTerm::LiteralDatatype(l, d) => $ty::from(($w::<str>::from(&l[..]), IriRef::new_unchecked($w::<str>::from(d.as_str())))),
+            SimpleTerm::LiteralLanguage(l, t) => $ty::from(($w::<str>::from(&l[..]), LanguageTag::new_unchecked($w::<str>::from(t.as_str())))),
+            SimpleTerm::Triple(tr) => $ty::from($w::new([$name(&tr[0]), $name(&tr[1]), $name(&tr[2])])),
+        }
+    }
+}; }
+from_parts!(arc_from_parts, ArcTerm, Arc);
+from_parts!(rc_from_parts, RcTerm, Rc);
+fn result_from_parts(st: &ST) -> ResultTerm {
+    match st {
+        SimpleTerm::Triple(tr) => ResultTerm::from([result_from_parts(&tr[0]), result_from_parts(&tr[1]), result_from_parts(&tr[2])]),
+        _ => ResultTerm::from(arc_from_parts(st)),
+    }
+}
+
 fn reps<'a>(a: &'a Abs, arc_stash: &mut ArcStrStash, rc_stash: &mut RcStrStash) -> Vec<Rep<'a>> {
     let st = &a.st;
     let mut v: Vec<Rep<'a>> = vec![
@@ -77,6 +162,7 @@ fn reps<'a>(a: &'a Abs, arc_stash: &mut ArcStrStash, rc_stash: &mut RcStrStash) 
         // the same with its SPARQL value already computed and cached inside the term
         Rep::ResultCached({ let rt = ResultTerm::from(ArcTerm::from_term(st.borrow_term())); let _ = rt.value(); rt }),
     ];
+    if let Some(j) = jrdf_forms(st).into_iter().next() { v.push(Rep::JRdf(j)); }
     match st {
         SimpleTerm::Iri(i) => {
             v.push(Rep::IriRefW(IriRef::new_unchecked(i.as_str())));
@@ -111,7 +197,14 @@ fn reps<'a>(a: &'a Abs, arc_stash: &mut ArcStrStash, rc_stash: &mut RcStrStash) 
                 Native::None => {}
             }
         }
-        SimpleTerm::Triple(_) => {}
+        SimpleTerm::Triple(tr) => {
+            // rio's own quoted triples (strict shape only) and generalized quoted triples; terms assembled from parts
+            if let Some(t) = rio_triple(tr) { v.push(Rep::RioTerm(Trusted(rio::Term::Triple(t)))); }
+            v.push(Rep::RioGen(Trusted(rio_gen(st))));
+            v.push(Rep::Result(result_from_parts(st)));
+            v.push(Rep::Arc(arc_from_parts(st)));
+            v.push(Rep::Rc(rc_from_parts(st)));
+        }
     }
     v
 }
@@ -119,23 +212,40 @@ fn reps<'a>(a: &'a Abs, arc_stash: &mut ArcStrStash, rc_stash: &mut RcStrStash) 
 // ---------- generation ----------
 const STRS: [&str; 12] = ["", "a", "b", "ab", "aa", "A", "a\u{e9}", "a\u{ff}", "\u{10000}", "\u{ffff}", "z", "a b"];
 const TAGS: [&str; 7] = ["en", "EN", "En", "en-US", "en-us", "fr", "FR"];
+fn word(r: &mut Rng) -> String { r.pick(&STRS[..]).replace(' ', "_").replace('\u{ffff}', "\u{ffef}") }
+/// subject: IRI / blank node / strict triple; predicate: IRI; object: anything but a variable
+fn gen_strict_triple(r: &mut Rng, depth: usize) -> ST {
+    let s_ = match r.below(if depth > 1 { 4 } else { 3 }) { 0 | 1 => iri(&format!("http://e/{}", word(r))), 2 => bnode(&format!("b{}", word(r))), _ => gen_strict_triple(r, depth - 1) };
+    let p_ = iri(&format!("http://e/{}", r.ps(&["p", "q", "a", ""])));
+    let o_ = match r.below(if depth > 1 { 6 } else { 5 }) {
+        0 => iri(&format!("http://e/{}", word(r))), 1 => bnode(&format!("b{}", word(r))), 2 => lit_dt(*r.pick(&STRS[..]), &format!("{XSD}string")),
+        3 => { let l = *r.pick(&STRS[..]); lit_lang(l, *r.pick(&TAGS[..])) }, 4 => lit_dt(&r.below(3).to_string(), &format!("{XSD}integer")), _ => gen_strict_triple(r, depth - 1) };
+    triple(s_, p_, o_)
+}
 fn gen_abs(r: &mut Rng, depth: usize) -> Abs {
     let k = r.below(if depth > 0 { 12 } else { 10 });
     let s = *r.pick(&STRS[..]);
     let (st, native) = match k {
         0 | 1 => (iri(&format!("http://e/{}", s.replace(' ', "_").replace('\u{ffff}', "\u{ffef}"))), Native::None),
-        2 => (bnode(&format!("{}{}", r.ps(&["b", "b", "_", "__", "_b"]), s.replace(' ', "_").replace('\u{ffff}', "\u{ffef}"))), Native::None),
+        2 => (bnode(&format!("{}{}{}", r.ps(&["b", "b", "_", "__", "_b", "0"]), s.replace(' ', "_").replace('\u{ffff}', "\u{ffef}"), r.ps(&["", "", "1", "-0"]))), Native::None),
         3 => (var(&format!("v{}", s.replace(' ', "_").replace('\u{ffff}', "\u{ffef}"))), Native::None),
         4 => (lit_dt(s, &format!("{XSD}string")), Native::Str),
         5 => (lit_lang(s, *r.pick(&TAGS[..])), Native::None),
         6 => (lit_dt(s, *r.pick(&["http://e/dt", "http://e/", "http://www.w3.org/2001/XMLSchema#integer", "http://www.w3.org/1999/02/22-rdf-syntax-ns#langStrinG"])), Native::None),
-        7 => { let x = *r.pick(&[0i32, 1, -1, 42, i32::MAX, i32::MIN]); (lit_dt(&x.to_string(), &format!("{XSD}integer")), Native::I32(x)) }
+        7 => { let x = *r.pick(&[0i32, 1, -1, 42, 200, i32::MAX, i32::MIN]);
+               // mostly xsd:integer (the datatype of the native i32); sometimes a derived type whose range the value may or may not fit
+               let dt = r.ps(&["integer", "integer", "integer", "integer", "unsignedByte", "negativeInteger", "short", "positiveInteger", "nonPositiveInteger", "unsignedInt"]);
+               (lit_dt(&x.to_string(), &format!("{XSD}{dt}")), if dt == "integer" { Native::I32(x) } else { Native::None }) }
         8 => match r.below(3) {
             0 => { let x = *r.pick(&[0isize, 42, -7, isize::MAX, isize::MIN]); (lit_dt(&x.to_string(), &format!("{XSD}integer")), Native::Isize(x)) }
             1 => { let x = *r.pick(&[0usize, 42, usize::MAX]); (lit_dt(&x.to_string(), &format!("{XSD}integer")), Native::Usize(x)) }
             _ => { let x = r.chance(1, 2); (lit_dt(if x { "true" } else { "false" }, &format!("{XSD}boolean")), Native::Bool(x)) }
         },
-        9 => { let x = *r.pick(&[0.0f64, 1.5, -2.0, 1e21, 1e-7, 42.0]); let t: SimpleTerm = x.into_term(); (t.into_term(), Native::F64(x)) }
+        // the expected lexical form is stated here (XSD spelling of what Rust's Display prints), not taken from the implementation
+        9 => { let (x, lex) = *r.pick(&[(0.0f64, "0"), (1.5, "1.5"), (-2.0, "-2"), (1e21, "1000000000000000000000"), (1e-7, "0.0000001"), (42.0, "42"), (f64::INFINITY, "INF"), (f64::NEG_INFINITY, "-INF"), (f64::NAN, "NaN")]);
+               if r.chance(1, 5) { (lit_dt(lex, &format!("{XSD}{}", r.ps(&["float", "decimal"]))), Native::None) } else { (lit_dt(lex, &format!("{XSD}double")), Native::F64(x)) } }
+        // half of the quoted triples have the strict RDF-star shape (so that rio's own Triple type can hold them)
+        _ if r.chance(1, 2) => (gen_strict_triple(r, depth), Native::None),
         _ => {
             let (s_, p_, o_) = (gen_abs(r, depth - 1).st, gen_abs(r, depth - 1).st, gen_abs(r, depth - 1).st);
             (triple(s_, p_, o_), Native::None)
@@ -192,6 +302,175 @@ fn std_traits_agree<T: Term + Ord + Eq + std::hash::Hash>(x: &T, y: &T) -> Optio
     if te && h(x) != h(y) { return Some("equal values have different std hashes".into()); }
     None
 }
+
+// ---------- accessors, components, native conversions: what ONE value answers ----------
+#[derive(PartialEq, Debug, Clone)]
+struct View { kind: TermKind, is_iri: bool, is_bnode: bool, is_literal: bool, is_variable: bool, is_atom: bool, is_triple: bool,
+    iri: Option<String>, bnode: Option<String>, lex: Option<String>, dt: Option<String>, tag: Option<String>, var: Option<String>, triple: bool }
+fn view_ref<T: Term + ?Sized>(t: &T) -> View {
+    View { kind: t.kind(), is_iri: t.is_iri(), is_bnode: t.is_blank_node(), is_literal: t.is_literal(), is_variable: t.is_variable(), is_atom: t.is_atom(), is_triple: t.is_triple(),
+        iri: t.iri().map(|x| x.as_str().to_string()), bnode: t.bnode_id().map(|x| x.as_str().to_string()), lex: t.lexical_form().map(|x| x.to_string()),
+        dt: t.datatype().map(|x| x.as_str().to_string()), tag: t.language_tag().map(|x| x.as_str().to_string()), var: t.variable().map(|x| x.as_str().to_string()), triple: t.triple().is_some() }
+}
+/// the expected answers, read off the enum (no Term method involved)
+fn view_expected(st: &ST) -> View {
+    let mut v = View { kind: TermKind::Iri, is_iri: false, is_bnode: false, is_literal: false, is_variable: false, is_atom: true, is_triple: false, iri: None, bnode: None, lex: None, dt: None, tag: None, var: None, triple: false };
+    match st {
+        SimpleTerm::Iri(i) => { v.is_iri = true; v.iri = Some(i.as_str().to_string()); }
+        SimpleTerm::BlankNode(b) => { v.kind = TermKind::BlankNode; v.is_bnode = true; v.bnode = Some(b.as_str().to_string()); }
+        SimpleTerm::Variable(x) => { v.kind = TermKind::Variable; v.is_variable = true; v.var = Some(x.as_str().to_string()); }
+        SimpleTerm::LiteralDatatype(l, d) => { v.kind = TermKind::Literal; v.is_literal = true; v.lex = Some(l.to_string()); v.dt = Some(d.as_str().to_string()); }
+        SimpleTerm::LiteralLanguage(l, g) => { v.kind = TermKind::Literal; v.is_literal = true; v.lex = Some(l.to_string()); v.dt = Some(format!("{RDF}langString")); v.tag = Some(g.as_str().to_string()); }
+        SimpleTerm::Triple(_) => { v.kind = TermKind::Triple; v.is_atom = false; v.is_triple = true; v.triple = true; }
+    }
+    v
+}
+fn exp_atoms(st: &ST, out: &mut Vec<String>) { match st { SimpleTerm::Triple(tr) => for c in tr.iter() { exp_atoms(c, out) }, _ => out.push(coq_term(st)) } }
+fn exp_constituents(st: &ST, out: &mut Vec<String>) { out.push(coq_term(st)); if let SimpleTerm::Triple(tr) = st { for c in tr.iter() { exp_constituents(c, out) } } }
+fn exp_triple(st: &ST) -> Option<[String; 3]> { match st { SimpleTerm::Triple(tr) => Some([coq_term(&tr[0]), coq_term(&tr[1]), coq_term(&tr[2])]), _ => None } }
+
+const INT_DTS: [&str; 12] = ["integer", "long", "int", "short", "unsignedLong", "unsignedInt", "unsignedShort", "unsignedByte", "nonNegativeInteger", "positiveInteger", "nonPositiveInteger", "negativeInteger"];
+fn fmt_f64(v: f64) -> String { if v == f64::INFINITY { "INF".into() } else if v == f64::NEG_INFINITY { "-INF".into() } else { format!("{v}") } }
+/// term -> native value (TryFromTerm of i32 / isize / usize / bool / f64): a success needs a literal of an accepted XSD datatype
+/// whose lexical form denotes the value; the canonical spelling of the native type's own datatype must be accepted, and then
+/// the native value, as a term, is an equal term.
+fn native_fails<T: Term + Copy>(t: T, st: &ST) -> Vec<String> {
+    let mut f = vec![];
+    let (lex, dt) = match st { SimpleTerm::LiteralDatatype(l, d) => (Some(l.to_string()), Some(d.as_str().to_string())), SimpleTerm::LiteralLanguage(l, _) => (Some(l.to_string()), Some(format!("{RDF}langString"))), _ => (None, None) };
+    let local = dt.as_deref().and_then(|d| d.strip_prefix(XSD));
+    // value space of the bounded types derived from xsd:integer (stated from XSD, independently of the code under test)
+    let in_range = |l: &str, v: i128| match l {
+        "long" => i64::MIN as i128 <= v && v <= i64::MAX as i128, "int" => i32::MIN as i128 <= v && v <= i32::MAX as i128, "short" => -32768 <= v && v <= 32767,
+        "unsignedLong" => 0 <= v && v <= u64::MAX as i128, "unsignedInt" => 0 <= v && v <= 4294967295, "unsignedShort" => 0 <= v && v <= 65535, "unsignedByte" => 0 <= v && v <= 255,
+        "nonNegativeInteger" => v >= 0, "positiveInteger" => v >= 1, "nonPositiveInteger" => v <= 0, "negativeInteger" => v <= -1, _ => true };
+    macro_rules! int { ($ty:ty, $allowed:expr) => {{
+        let r = t.try_into_term::<$ty>();
+        let parsed = lex.as_deref().and_then(|l| l.parse::<$ty>().ok());
+        let canon = parsed.filter(|v| Some(v.to_string()) == lex);
+        match (&r, local) {
+            (Ok(v), Some(l)) if $allowed.contains(&l) => {
+                if parsed != Some(*v) { f.push(format!("{}::try_from_term gives {v}, the lexical form denotes {parsed:?}", stringify!($ty))); }
+                if !in_range(l, *v as i128) { f.push(format!("{}::try_from_term gives {v}, outside the value space of xsd:{l}", stringify!($ty))); }
+                if l == "integer" && canon == Some(*v) && !(Term::eq(v, t) && Term::cmp(v, t) == Ordering::Equal && rec(*v) == rec(t)) { f.push(format!("{} {v} obtained from the term is not an equal term", stringify!($ty))); }
+            }
+            (Ok(v), _) => f.push(format!("{}::try_from_term accepts a term that is not an XSD integer literal (gives {v})", stringify!($ty))),
+            (Err(_), Some(l)) if $allowed.contains(&l) && parsed.is_some_and(|p| in_range(l, p as i128)) => f.push(format!("{}::try_from_term rejects {lex:?}^^xsd:{l}, a value of that datatype that the native type can hold", stringify!($ty))),
+            _ => {}
+        }
+    }}; }
+    int!(i32, INT_DTS); int!(isize, INT_DTS); int!(usize, INT_DTS[..10]);
+    match (t.try_into_term::<bool>(), local) {
+        (Ok(v), Some("boolean")) => { if lex.as_deref() != Some(if v { "true" } else { "false" }) { f.push(format!("bool::try_from_term gives {v} for {lex:?}")); } if !(Term::eq(&v, t) && Term::cmp(&v, t) == Ordering::Equal) { f.push(format!("bool {v} obtained from the term is not an equal term")); } }
+        (Ok(v), _) => f.push(format!("bool::try_from_term accepts a term that is not an xsd:boolean literal (gives {v})")),
+        (Err(_), Some("boolean")) if matches!(lex.as_deref(), Some("true") | Some("false")) => f.push(format!("bool::try_from_term rejects {lex:?}")),
+        _ => {}
+    }
+    let parsed = lex.as_deref().and_then(|l| if local == Some("float") { l.parse::<f32>().ok().map(f64::from) } else { l.parse::<f64>().ok() });
+    let same = |a: f64, b: f64| a.to_bits() == b.to_bits() || (a.is_nan() && b.is_nan());
+    match (t.try_into_term::<f64>(), local) {
+        (Ok(v), Some(l)) if ["double", "float", "decimal"].contains(&l) => {
+            if !parsed.is_some_and(|p| same(p, v)) { f.push(format!("f64::try_from_term gives {v}, the lexical form denotes {parsed:?}")); }
+            if l == "double" && Some(fmt_f64(v)) == lex && !(Term::eq(&v, t) && Term::cmp(&v, t) == Ordering::Equal && rec(v) == rec(t)) { f.push(format!("f64 {v} obtained from the term is not an equal term")); }
+        }
+        (Ok(v), _) => f.push(format!("f64::try_from_term accepts a term that is not an XSD double/float/decimal literal (gives {v})")),
+        (Err(_), Some("double")) if parsed.is_some_and(|p| Some(fmt_f64(p)) == lex) => f.push(format!("f64::try_from_term rejects the canonical xsd:double {lex:?}")),
+        _ => {}
+    }
+    f
+}
+
+
+/// directed term -> native conversions at the edges of the XSD value spaces, with the expected outcome written down
+fn directed_native_fails() -> Vec<String> {
+    let mut f = vec![];
+    // (lexical form, datatype, is the number in the value space of the datatype?)
+    let ints: [(&str, &str, bool); 30] = [("255", "unsignedByte", true), ("256", "unsignedByte", false), ("200", "unsignedByte", true), ("-1", "unsignedByte", false), ("0", "unsignedByte", true),
+        ("32767", "short", true), ("32768", "short", false), ("-32768", "short", true), ("-32769", "short", false), ("0", "positiveInteger", false), ("1", "positiveInteger", true),
+        ("0", "negativeInteger", false), ("-1", "negativeInteger", true), ("0", "nonPositiveInteger", true), ("1", "nonPositiveInteger", false), ("-1", "nonNegativeInteger", false), ("0", "nonNegativeInteger", true),
+        ("4294967295", "unsignedInt", true), ("4294967296", "unsignedInt", false), ("2147483647", "int", true), ("2147483648", "int", false), ("-2147483648", "int", true), ("-2147483649", "int", false),
+        ("9223372036854775807", "long", true), ("65535", "unsignedShort", true), ("65536", "unsignedShort", false), ("18446744073709551615", "unsignedLong", true), ("-1", "unsignedLong", false),
+        ("+7", "integer", true), ("007", "integer", true)];
+    for (lex, dt, inside) in ints {
+        let st = lit_dt(lex, &format!("{XSD}{dt}")); let v: i128 = lex.parse().unwrap();
+        macro_rules! one { ($ty:ty, $ok_dt:expr) => {{
+            let exp: Option<$ty> = if inside && $ok_dt { <$ty>::try_from(v).ok() } else { None };
+            let got = <$ty>::try_from_term(&st).ok();
+            if got != exp { f.push(format!("{}::try_from_term({lex:?}^^xsd:{dt}) = {got:?}, expected {exp:?}", stringify!($ty))); }
+        }}; }
+        one!(i32, true); one!(isize, true); one!(usize, dt != "nonPositiveInteger" && dt != "negativeInteger");
+        if bool::try_from_term(&st).is_ok() || f64::try_from_term(&st).is_ok() { f.push(format!("bool / f64 ::try_from_term accepts {lex:?}^^xsd:{dt}")); }
+    }
+    let nan = f64::NAN;
+    let floats: [(&str, &str, Option<f64>); 22] = [("1.5", "double", Some(1.5)), ("1e3", "double", Some(1000.0)), ("1E-2", "double", Some(0.01)), ("INF", "double", Some(f64::INFINITY)), ("+INF", "double", Some(f64::INFINITY)), ("-INF", "double", Some(f64::NEG_INFINITY)), ("NaN", "double", Some(nan)),
+        ("inf", "double", None), ("Infinity", "double", None), ("nan", "double", None), ("-inf", "double", None), ("1.5", "string", None), ("1.5", "integer", None), ("", "double", None), ("1e", "double", None),
+        ("1.1", "float", Some(1.1f32 as f64)), ("INF", "float", Some(f64::INFINITY)), ("16777217", "float", Some(16777216.0)), (".5", "decimal", Some(0.5)), ("5.", "decimal", Some(5.0)), ("INF", "decimal", None), ("1e3", "decimal", None)];
+    for (lex, dt, exp) in floats {
+        let st = lit_dt(lex, &format!("{XSD}{dt}")); let got = f64::try_from_term(&st).ok();
+        let same = match (got, exp) { (None, None) => true, (Some(a), Some(b)) => a.to_bits() == b.to_bits() || (a.is_nan() && b.is_nan()), _ => false };
+        if !same { f.push(format!("f64::try_from_term({lex:?}^^xsd:{dt}) = {got:?}, expected {exp:?}")); }
+    }
+    for (lex, dt, exp) in [("true", "boolean", Some(true)), ("false", "boolean", Some(false)), ("true", "string", None), ("TRUE", "boolean", None), ("", "boolean", None)] {
+        let got = bool::try_from_term(&lit_dt(lex, &format!("{XSD}{dt}"))).ok();
+        if got != exp { f.push(format!("bool::try_from_term({lex:?}^^xsd:{dt}) = {got:?}, expected {exp:?}")); }
+    }
+    // never from a language-tagged string or a non-literal
+    for st in [lit_lang("1", "en"), iri("http://e/1"), bnode("1"), var("1"), triple(iri("http://e/1"), iri("http://e/1"), lit_dt("1", &format!("{XSD}integer")))] {
+        if i32::try_from_term(&st).is_ok() || isize::try_from_term(&st).is_ok() || usize::try_from_term(&st).is_ok() || bool::try_from_term(&st).is_ok() || f64::try_from_term(&st).is_ok() { f.push(format!("a native value is obtained from {st:?}")); }
+    }
+    f
+}
+
+/// everything one value answers: accessors (on the value and on what `borrow_term` hands out), component iterators
+/// (borrowing and consuming), components, native conversions
+struct Obs { views: Vec<(&'static str, View)>, atoms: Vec<(&'static str, Vec<String>)>, constituents: Vec<(&'static str, Vec<String>)>, triples: Vec<(&'static str, Option<[String; 3]>)>, native: Vec<String>,
+    /// the graph-name comparison of this value with `st` itself and with the default graph
+    gn: [bool; 4] }
+fn observe<T: Term + Clone>(t: &T, st: &ST) -> Obs {
+    let b = t.borrow_term();
+    Obs {
+        views: vec![("value", view_ref(t)), ("borrow_term()", view_ref(&b)), ("borrow_term().borrow_term()", view_ref(&b.borrow_term()))],
+        atoms: vec![("atoms", t.atoms().map(|x| coq_term(x)).collect()), ("to_atoms", t.clone().to_atoms().map(|x| coq_term(x)).collect()),
+            ("borrow_term().atoms", b.atoms().map(|x| coq_term(x)).collect()), ("borrow_term().to_atoms", b.to_atoms().map(|x| coq_term(x)).collect())],
+        constituents: vec![("constituents", t.constituents().map(|x| coq_term(x)).collect()), ("to_constituents", t.clone().to_constituents().map(|x| coq_term(x)).collect()),
+            ("borrow_term().constituents", b.constituents().map(|x| coq_term(x)).collect()), ("borrow_term().to_constituents", b.to_constituents().map(|x| coq_term(x)).collect())],
+        triples: vec![("triple", t.triple().map(|a| a.map(|x| coq_term(x)))), ("to_triple", t.clone().to_triple().map(|a| a.map(|x| coq_term(x)))),
+            ("borrow_term().triple", b.triple().map(|a| a.map(|x| coq_term(x)))), ("borrow_term().to_triple", b.to_triple().map(|a| a.map(|x| coq_term(x))))],
+        native: native_fails(b, st),
+        gn: [graph_name_eq(Some(b), Some(st)), graph_name_eq(Some(st), Some(b)), graph_name_eq(Some(b), None::<&ST>), graph_name_eq(None::<&ST>, Some(b))],
+    }
+}
+fn coq_oterm(o: &Option<[String; 3]>) -> String { match o { None => "None".into(), Some([s, p, o]) => format!("(Some ({s}, {p}, {o}))") } }
+fn coq_ostr(o: &Option<String>) -> String { coq_opt(o.as_deref().map(coq_str)) }
+fn kind_rank(k: TermKind) -> usize { match k { TermKind::BlankNode => 0, TermKind::Iri => 1, TermKind::Literal => 2, TermKind::Triple => 3, TermKind::Variable => 4 } }
+
+/// a value built along some other construction path must spell the term (and so be equal, compare Equal, hash the same)
+fn same<T: Term>(how: &str, c: T, st: &ST, h0: &[u8], obs: &mut Vec<String>, fails: &mut Vec<String>) {
+    let spelled = coq_term(c.borrow_term());
+    if !(Term::eq(&c, st) && Term::eq(st, c.borrow_term()) && Term::cmp(&c, st) == Ordering::Equal && Term::cmp(st, c.borrow_term()) == Ordering::Equal && rec(c.borrow_term()) == h0 && spelled == coq_term(st)) {
+        fails.push(format!("{how}: built {c:?} for the term {st:?} (eq={}, cmp={:?}, same hash={})", Term::eq(&c, st), Term::cmp(&c, st), rec(c.borrow_term()) == h0));
+    }
+    obs.push(spelled);
+}
+/// the wrapper types' std traits against str and against the Term methods
+fn wrapper_traits<W>(x: &W, y: &W, xs: &str, ys: &str) -> Option<String>
+where W: Term + Ord + std::hash::Hash + PartialEq<str> + PartialOrd<str> + AsRef<str> + Borrow<str>, str: PartialEq<W> + PartialOrd<W> {
+    if let Some(d) = std_traits_agree(x, y) { return Some(d); }
+    let (e, c) = (Term::eq(x, y.borrow_term()), Term::cmp(x, y.borrow_term()));
+    if (*x == *ys) != e || (*xs == *y) != e { return Some(format!("== with a str gives {} / {}, Term::eq gives {e}", *x == *ys, *xs == *y)); }
+    if x.partial_cmp(ys) != Some(c) || xs.partial_cmp(y) != Some(c) { return Some(format!("partial_cmp with a str gives {:?} / {:?}, Term::cmp gives {c:?}", x.partial_cmp(ys), xs.partial_cmp(y))); }
+    if AsRef::<str>::as_ref(x) != xs || Borrow::<str>::borrow(x) != xs { return Some("AsRef<str> / Borrow<str> do not give the wrapped text".into()); }
+    // Borrow<str> promises that the wrapper hashes like the text it wraps (a map keyed by wrappers is probed with a &str)
+    let (mut h1, mut h2) = (Rec::default(), Rec::default()); std::hash::Hash::hash(x, &mut h1); std::hash::Hash::hash(xs, &mut h2);
+    if h1.0 != h2.0 { return Some("the wrapper's std hash differs from the hash of the text it wraps (Borrow<str> contract)".into()); }
+    None
+}
+/// PartialEq<T> / PartialOrd<T> of a term type against ANY other term type
+fn cross_traits<X: Term + PartialEq<Y> + PartialOrd<Y>, Y: Term>(x: &X, y: &Y) -> Option<String> {
+    let (e, c) = (Term::eq(x, y.borrow_term()), Term::cmp(x, y.borrow_term()));
+    if (x == y) != e || (x != y) == e { return Some(format!("== gives {} but Term::eq gives {e}", x == y)); }
+    if x.partial_cmp(y) != Some(c) || (x < y) != (c == Ordering::Less) || (x >= y) != (c != Ordering::Less) { return Some(format!("partial_cmp gives {:?} but Term::cmp gives {c:?}", x.partial_cmp(y))); }
+    None
+}
 fn c_cmp(o: Ordering) -> &'static str { match o { Ordering::Less => "Lt", Ordering::Equal => "Eq", Ordering::Greater => "Gt" } }
 
 fn main() {
@@ -199,6 +478,7 @@ fn main() {
     let mut sum = Summary::default();
     sum.rule = "batches of abstract terms (all kinds, nesting <= 2, case-variant language tags, non-BMP strings, native-valued literals); each term is instantiated in every Term type that can hold it; \
 evaluation = one ordered pair of abstract terms compared in ALL pairs of representations (eq, cmp) or one term hashed in all representations or converted along every conversion path; \
+or one term observed through every accessor / component iterator / to_triple / native conversion of every representation, or rebuilt along every other construction path (From impls, checked and const constructors, `*` operators, stash copies, JSON-LD vocabulary round trips, rio statement accessors), or one graph-name comparison; \
 non-trivial pair = equal-but-differently-spelled terms, or same-kind unequal terms; distinct = distinct printed pair".into();
     let base = Rng::new(a.seed);
     let batches: Vec<usize> = match a.only { Some(i) => vec![i], None => (0..a.n).collect() };
@@ -246,6 +526,117 @@ non-trivial pair = equal-but-differently-spelled terms, or same-kind unequal ter
                 let c = with_rep!(rp, t => t.as_simple());
                 if !Term::eq(&c, x.st.borrow_term()) { sum.oracle_failures.push((format!("{b}"), format!("as_simple of {} {:?} differs", rep_name(rp), x.st))); }
             }
+
+            // ---- accessors, component iterators, components, native conversions, graph-name comparison: every representation ----
+            let ev = view_expected(&x.st); let et = exp_triple(&x.st);
+            let (mut ea, mut ec) = (vec![], vec![]); exp_atoms(&x.st, &mut ea); exp_constituents(&x.st, &mut ec);
+            let pick = (i + b) % all[i].len();
+            for (k, rp) in all[i].iter().enumerate() {
+                let o = with_rep!(rp, t => observe(t, &x.st));
+                let mut bad: Vec<String> = vec![];
+                for (how, v) in &o.views { if *v != ev { bad.push(format!("accessors ({how}) answer {v:?}, expected {ev:?}")); } }
+                for (how, l) in &o.atoms { if *l != ea { bad.push(format!("{how} yields {l:?}, expected {ea:?}")); } }
+                for (how, l) in &o.constituents { if *l != ec { bad.push(format!("{how} yields {l:?}, expected {ec:?}")); } }
+                for (how, l) in &o.triples { if *l != et { bad.push(format!("{how} yields {l:?}, expected {et:?}")); } }
+                bad.extend(o.native.iter().cloned());
+                if o.gn != [true, true, false, false] { bad.push(format!("graph_name_eq(Some(t),Some(t)), (reversed), (Some(t),None), (None,Some(t)) = {:?}", o.gn)); }
+                if let Rep::Str(t) = rp { // the unsized impl itself (the rows above went through `&str`)
+                    if view_ref::<str>(t) != ev { bad.push("accessors of str differ".into()); }
+                    let bt: &str = <str as Term>::borrow_term(t);
+                    if !Term::eq(bt, &x.st) || <str as Term>::atoms(t).map(|y| coq_term(y)).collect::<Vec<_>>() != ea { bad.push("str::borrow_term / atoms differ".into()); }
+                }
+                for d in bad { sum.oracle_failures.push((format!("{b}"), format!("{} holding {:?}: {d}", rep_name(rp), x.st))); }
+                sum.bump("value observed through accessors/iterators");
+                if k == pick { // the model against what THIS representation answered (the others were compared with it above)
+                    let v = &o.views[i % 3].1;
+                    cases.push((case_no, format!("tview_ok t{b}_{i} {} {} {} {} {} {} {} {}", kind_rank(v.kind), coq_bool(v.is_atom), coq_ostr(&v.iri), coq_ostr(&v.bnode), coq_ostr(&v.lex), coq_ostr(&v.dt), coq_ostr(&v.tag), coq_ostr(&v.var)))); case_no += 1;
+                    cases.push((case_no, format!("atoms_ok t{b}_{i} {}", coq_list(o.atoms[i % 4].1.iter().cloned())))); case_no += 1;
+                    cases.push((case_no, format!("constituents_ok t{b}_{i} {}", coq_list(o.constituents[(i + 1) % 4].1.iter().cloned())))); case_no += 1;
+                    cases.push((case_no, format!("to_triple_ok t{b}_{i} {}", coq_oterm(&o.triples[(i + 2) % 4].1)))); case_no += 1;
+                    cases.push((case_no, format!("gname_ok (Some t{b}_{i}) None {} && gname_ok None (Some t{b}_{i}) {}", coq_bool(o.gn[2]), coq_bool(o.gn[3])))); case_no += 1;
+                    sum.evaluations += 5;
+                }
+            }
+            // ---- other construction paths: From impls, checked / const constructors, `*` operators, stash copies, vocabulary round trips ----
+            let mut built: Vec<String> = vec![]; let mut bf: Vec<String> = vec![];
+            same("ArcTerm::from(parts)", arc_from_parts(&x.st), &x.st, &h0, &mut built, &mut bf);
+            same("RcTerm::from(parts)", rc_from_parts(&x.st), &x.st, &h0, &mut built, &mut bf);
+            { let rt = result_from_parts(&x.st); same("ResultTerm::from(parts)", rt.clone(), &x.st, &h0, &mut built, &mut bf); same("ResultTerm::inner", rt.inner(), &x.st, &h0, &mut built, &mut bf); same("ResultTerm::unwrap", rt.unwrap(), &x.st, &h0, &mut built, &mut bf); }
+            for j in jrdf_forms(&x.st) { same("RdfTerm::from", j, &x.st, &h0, &mut built, &mut bf); }
+            same("SimpleTerm::from_term_ref", SimpleTerm::from_term_ref(&x.st), &x.st, &h0, &mut built, &mut bf);
+            same("RcStrStash::copy_term", rc_stash.copy_term(&x.st), &x.st, &h0, &mut built, &mut bf);
+            let leak = |t: &str| -> &'static str { Box::leak(t.to_string().into_boxed_str()) };
+            match &x.st {
+                SimpleTerm::Iri(i) => {
+                    let t = i.as_str();
+                    match IriRef::new(t) { Ok(w) => same("IriRef::new", w, &x.st, &h0, &mut built, &mut bf), Err(e) => bf.push(format!("IriRef::new rejects {t:?}: {e}")) }
+                    if let Ok(w) = Iri::new(t) { same("Iri::new", w, &x.st, &h0, &mut built, &mut bf); same("Iri::new_unchecked_const", Iri::new_unchecked_const(leak(t)), &x.st, &h0, &mut built, &mut bf); }
+                    same("IriRef::new_unchecked_const", IriRef::new_unchecked_const(leak(t)), &x.st, &h0, &mut built, &mut bf);
+                    same("ArcStrStash::copy_iri", arc_stash.copy_iri(IriRef::new_unchecked(t)), &x.st, &h0, &mut built, &mut bf);
+                    same("RcStrStash::copy_iri", rc_stash.copy_iri(IriRef::new_unchecked(t)), &x.st, &h0, &mut built, &mut bf);
+                    for k in &x.ns_split { let ns = NsTerm::new_unchecked(IriRef::new_unchecked(&t[..*k]), &t[*k..]); same("NsTerm::iriref", ns.iriref(), &x.st, &h0, &mut built, &mut bf); same("NsTerm::to_iriref", ns.to_iriref(), &x.st, &h0, &mut built, &mut bf); }
+                    if let Some(ai) = arc_iri(t) { let (v1, mut v2) = (ArcVoc::default(), ArcVoc::default());
+                        same("ArcVoc::get(iri)", v1.get(v1.iri(&ai).unwrap()).unwrap(), &x.st, &h0, &mut built, &mut bf); same("ArcVoc::insert(iri)", v2.insert(v1.iri(&ai).unwrap()), &x.st, &h0, &mut built, &mut bf); }
+                    let w = Iri::new_unchecked(t.to_string()); if AsRef::<String>::as_ref(&w) != t || Borrow::<String>::borrow(&w) != t || w.clone().unwrap() != t { bf.push("Iri<String>: AsRef<T> / Borrow<T> / unwrap do not give the wrapped text".into()); }
+                }
+                SimpleTerm::BlankNode(l) => {
+                    let t = l.as_str();
+                    match BnodeId::new(t) { Ok(w) => same("BnodeId::new", w, &x.st, &h0, &mut built, &mut bf), Err(e) => bf.push(format!("BnodeId::new rejects {t:?}: {e}")) }
+                    same("BnodeId::new_unchecked_const", BnodeId::new_unchecked_const(leak(t)), &x.st, &h0, &mut built, &mut bf);
+                    same("ArcStrStash::copy_bnode_id", arc_stash.copy_bnode_id(BnodeId::new_unchecked(t)), &x.st, &h0, &mut built, &mut bf);
+                    same("RcStrStash::copy_bnode_id", rc_stash.copy_bnode_id(BnodeId::new_unchecked(t)), &x.st, &h0, &mut built, &mut bf);
+                    if let Some(bn) = arc_bnode(t) { let (v1, mut v2) = (ArcVoc::default(), ArcVoc::default());
+                        same("ArcVoc::get_blank_id", v1.get_blank_id(v1.blank_id(&bn).unwrap()).unwrap(), &x.st, &h0, &mut built, &mut bf); same("ArcVoc::insert_blank_id", v2.insert_blank_id(v1.blank_id(&bn).unwrap()), &x.st, &h0, &mut built, &mut bf); }
+                    let w = BnodeId::new_unchecked(t.to_string()); if AsRef::<String>::as_ref(&w) != t || Borrow::<String>::borrow(&w) != t || w.clone().unwrap() != t { bf.push("BnodeId<String>: AsRef<T> / Borrow<T> / unwrap do not give the wrapped text".into()); }
+                }
+                SimpleTerm::Variable(n) => {
+                    let t = n.as_str();
+                    match VarName::new(t) { Ok(w) => same("VarName::new", w, &x.st, &h0, &mut built, &mut bf), Err(e) => bf.push(format!("VarName::new rejects {t:?}: {e}")) }
+                    same("VarName::new_unchecked_const", VarName::new_unchecked_const(leak(t)), &x.st, &h0, &mut built, &mut bf);
+                    same("ArcStrStash::copy_var_name", arc_stash.copy_var_name(VarName::new_unchecked(t)), &x.st, &h0, &mut built, &mut bf);
+                    same("RcStrStash::copy_var_name", rc_stash.copy_var_name(VarName::new_unchecked(t)), &x.st, &h0, &mut built, &mut bf);
+                }
+                SimpleTerm::LiteralDatatype(l, d) => {
+                    let (l, d) = (&l[..], d.as_str());
+                    let mut ks = vec![0, d.len()]; let k = r.below(d.len() + 1); if d.is_char_boundary(k) { ks.push(k); }
+                    for k in ks { // `lexical form * namespace term`
+                        let t = l * NsTerm::new_unchecked(IriRef::new_unchecked(&d[..k]), &d[k..]);
+                        cases.push((case_no, format!("ns_lit_ok {} {} {} {}", coq_str(&d[..k]), coq_str(&d[k..]), coq_str(l), coq_term(&t)))); case_no += 1; sum.evaluations += 1;
+                        same("str * NsTerm", t, &x.st, &h0, &mut built, &mut bf);
+                    }
+                    if *arc_stash.copy_str(l) != *l || *rc_stash.copy_str(d) != *d { bf.push("copy_str does not copy the text".into()); }
+                    for j in jrdf_forms(&x.st) { let _ = j; if let Some(ai) = arc_iri(d) { use rdf_types::{Literal as RLit, Term as RTerm, literal::Type as RType};
+                        let lit = RLit::new(l.to_string(), RType::Any(ai)); let (v1, mut v2) = (ArcVoc::default(), ArcVoc::default());
+                        same("ArcVoc::get_literal", RdfTerm::from(RTerm::Literal(v1.get_literal(v1.literal(&lit).unwrap()).unwrap())), &x.st, &h0, &mut built, &mut bf);
+                        same("ArcVoc::insert_literal", RdfTerm::from(RTerm::Literal(v2.insert_literal(v1.literal(&lit).unwrap()))), &x.st, &h0, &mut built, &mut bf); } }
+                }
+                SimpleTerm::LiteralLanguage(l, g) => {
+                    let (l, g) = (&l[..], g.as_str());
+                    match LanguageTag::new(g) {
+                        Ok(tag) => { let t = l * tag;
+                            cases.push((case_no, format!("lang_lit_ok {} {} {}", coq_str(l), coq_str(g), coq_term(&t)))); case_no += 1; sum.evaluations += 1;
+                            same("str * LanguageTag", t, &x.st, &h0, &mut built, &mut bf);
+                            if tag.unwrap() != g { bf.push("LanguageTag::unwrap does not give the wrapped text".into()); } }
+                        Err(e) => bf.push(format!("LanguageTag::new rejects {g:?}: {e}")),
+                    }
+                    same("str * LanguageTag::new_unchecked_const", l * LanguageTag::new_unchecked_const(leak(g)), &x.st, &h0, &mut built, &mut bf);
+                    same("ArcStrStash::copy_language_tag", l * arc_stash.copy_language_tag(LanguageTag::new_unchecked(g)).as_ref(), &x.st, &h0, &mut built, &mut bf);
+                    same("RcStrStash::copy_language_tag", l * rc_stash.copy_language_tag(LanguageTag::new_unchecked(g)).as_ref(), &x.st, &h0, &mut built, &mut bf);
+                    if TAGS.contains(&g) { use rdf_types::{Literal as RLit, Term as RTerm, literal::Type as RType}; // (the vocabulary hands tags to the strict `langtag` parser)
+                        let at = ArcTag::new_unchecked(Arc::<str>::from(g)); let (v1, mut v2) = (ArcVoc::default(), ArcVoc::default());
+                        let t1 = v1.get_language_tag(v1.language_tag(&at).unwrap()).unwrap(); let t2 = v2.insert_language_tag(v1.language_tag(&at).unwrap());
+                        let lit = RLit::new(l.to_string(), RType::LangString(t1));
+                        same("ArcVoc::get_language_tag + get_literal", RdfTerm::from(RTerm::Literal(v1.get_literal(v1.literal(&lit).unwrap()).unwrap())), &x.st, &h0, &mut built, &mut bf);
+                        same("ArcVoc::insert_language_tag", RdfTerm::from(RTerm::Literal(RLit::new(l.to_string(), RType::LangString(t2)))), &x.st, &h0, &mut built, &mut bf); }
+                }
+                SimpleTerm::Triple(tr) => {
+                    same("SimpleTerm::from_triple([s,p,o])", SimpleTerm::from_triple([&tr[0], &tr[1], &tr[2]]), &x.st, &h0, &mut built, &mut bf);
+                    if let Some(t) = rio_triple(tr) { same("SimpleTerm::from_triple(rio::Triple)", SimpleTerm::from_triple(Trusted(*t)), &x.st, &h0, &mut built, &mut bf); }
+                }
+            }
+            for d in bf { sum.oracle_failures.push((format!("{b}"), d)); }
+            sum.bump_by("value built along another construction path", built.len() as u64);
+            cases.push((case_no, format!("built_ok t{b}_{i} {}", coq_list(built)))); case_no += 1; sum.evaluations += 1;
         }
         // pairs
         let mut eqm = vec![vec![false; pool.len()]; pool.len()];
@@ -270,7 +661,28 @@ non-trivial pair = equal-but-differently-spelled terms, or same-kind unequal ter
                     (Rep::Result(x), Rep::Result(y)) | (Rep::ResultCached(x), Rep::ResultCached(y)) | (Rep::Result(x), Rep::ResultCached(y)) | (Rep::ResultCached(x), Rep::Result(y)) => std_traits_agree(x, y),
                     _ => None };
                 if let Some(d) = d { sum.oracle_failures.push((format!("{b}"), format!("std traits of {}: {d}; for {:?} / {:?}", rep_name(ra), pool[i].st, pool[j].st))); }
+                // the string wrappers: Eq / Ord / Hash between wrappers, and against plain str
+                let d = match (ra, rb) {
+                    (Rep::IriW(x), Rep::IriW(y)) => wrapper_traits(x, y, x.as_str(), y.as_str()), (Rep::IriRefW(x), Rep::IriRefW(y)) => wrapper_traits(x, y, x.as_str(), y.as_str()),
+                    (Rep::BnodeW(x), Rep::BnodeW(y)) => wrapper_traits(x, y, x.as_str(), y.as_str()), (Rep::VarW(x), Rep::VarW(y)) => wrapper_traits(x, y, x.as_str(), y.as_str()),
+                    _ => None };
+                if let Some(d) = d { sum.oracle_failures.push((format!("{b}"), format!("std traits of the wrapper {}: {d}; for {:?} / {:?}", rep_name(ra), pool[i].st, pool[j].st))); }
+                // PartialEq<T> / PartialOrd<T> against every other term type
+                let d = match ra {
+                    Rep::Simple(x) => with_rep!(rb, y => cross_traits(x, y)), Rep::Borrowed(x) => with_rep!(rb, y => cross_traits(x, y)), Rep::Arc(x) => with_rep!(rb, y => cross_traits(x, y)), Rep::Rc(x) => with_rep!(rb, y => cross_traits(x, y)),
+                    Rep::GenLit(x) => with_rep!(rb, y => cross_traits(x, y)), Rep::Cmp(x) => with_rep!(rb, y => cross_traits(x, y)), Rep::CmpArc(x) => with_rep!(rb, y => cross_traits(x, y)), Rep::Result(x) => with_rep!(rb, y => cross_traits(x, y)),
+                    Rep::Ns(x) => with_rep!(rb, y => if (x == y) != Term::eq(x, y.borrow_term()) || (x == y) != e0 { Some(format!("== gives {} but the terms are {}equal", x == y, if e0 { "" } else { "not " })) } else { None }),
+                    _ => None };
+                if let Some(d) = d { sum.oracle_failures.push((format!("{b}"), format!("{} compared with {} by the std operators: {d}; for {:?} / {:?}", rep_name(ra), rep_name(rb), pool[i].st, pool[j].st))); }
             } }
+            // graph names: Some(term) on both sides, in every representation on either side
+            for ra in &all[i] {
+                let (g1, g2) = with_rep!(ra, x => (graph_name_eq(Some(x.borrow_term()), Some(&pool[j].st)), graph_name_eq(Some(&pool[j].st), Some(x.borrow_term()))));
+                if g1 != e0 || g2 != e0 { sum.oracle_failures.push((format!("{b}"), format!("graph_name_eq(Some({} {:?}), Some({:?})) = {g1}, reversed = {g2}, Term::eq gives {e0}", rep_name(ra), pool[i].st, pool[j].st))); }
+            }
+            if j == (i * 5 + b) % pool.len() || j == i {
+                cases.push((case_no, format!("gname_ok (Some t{b}_{i}) (Some t{b}_{j}) {}", coq_bool(graph_name_eq(Some(&pool[i].st), Some(&pool[j].st)))))); case_no += 1; sum.evaluations += 1;
+            }
             if let (SimpleTerm::LiteralLanguage(_, t1), SimpleTerm::LiteralLanguage(_, t2)) = (&pool[i].st, &pool[j].st) {
                 let exp = t1.as_str().to_ascii_lowercase().cmp(&t2.as_str().to_ascii_lowercase());
                 let h = |t: &sophia_api::term::LanguageTag<_>| { let mut r = Rec::default(); std::hash::Hash::hash(t, &mut r); r.0 };
@@ -283,6 +695,64 @@ non-trivial pair = equal-but-differently-spelled terms, or same-kind unequal ter
             cases.push((case_no, format!("pair_ok t{b}_{i} t{b}_{j} {} {}", coq_bool(e0), c_cmp(c0)))); case_no += 1; sum.evaluations += 1;
             if sum.samples.len() < 4 && nontrivial { sum.samples.push(format!("{:?} vs {:?}: eq={e0} cmp={c0:?}, {}x{} representation pairs agree", pool[i].st, pool[j].st, all[i].len(), all[j].len())); }
         } }
+        // ---- statements made of rio terms: the Triple / Quad accessors hand out the components as terms ----
+        for (i, x) in pool.iter().enumerate() { if let SimpleTerm::Triple(tr) = &x.st {
+            let exp = [coq_term(&tr[0]), coq_term(&tr[1]), coq_term(&tr[2])];
+            let gi = if r.chance(1, 3) { None } else { Some(r.below(pool.len())) };
+            let eg = gi.map(|g| coq_term(&pool[g].st));
+            let mut bad: Vec<String> = vec![];
+            let mut chk = |how: &str, spo: [String; 3], g: Option<Option<String>>, exp_g: &Option<String>| { if spo != exp || g.as_ref().is_some_and(|g| g != exp_g) { bad.push(format!("{how} gives {spo:?} {g:?}, expected {exp:?} {exp_g:?}")); } };
+            // generalized quad: any term anywhere
+            let q = Trusted(rio::GeneralizedQuad { subject: rio_gen(&tr[0]), predicate: rio_gen(&tr[1]), object: rio_gen(&tr[2]), graph_name: gi.map(|g| rio_gen(&pool[g].st)) });
+            let seen = [coq_term(q.s()), coq_term(q.p()), coq_term(q.o())]; let seen_g = q.g().map(|t| coq_term(t));
+            chk("GeneralizedQuad s/p/o/g", seen.clone(), Some(seen_g.clone()), &eg);
+            chk("GeneralizedQuad to_s/to_p/to_o/to_g", [coq_term(q.clone().to_s()), coq_term(q.clone().to_p()), coq_term(q.clone().to_o())], Some(q.clone().to_g().map(|t| coq_term(t))), &eg);
+            { let (spo, g) = q.clone().to_spog(); chk("GeneralizedQuad to_spog", spo.map(|t| coq_term(t)), Some(g.map(|t| coq_term(t))), &eg); }
+            { let (spo, g) = q.spog(); chk("GeneralizedQuad spog", spo.map(|t| coq_term(t)), Some(g.map(|t| coq_term(t))), &eg); }
+            cases.push((case_no, format!("to_triple_ok t{b}_{i} (Some ({}, {}, {})) && {}", seen[0], seen[1], seen[2], match (gi, &seen_g) { (Some(g), Some(o)) => format!("built_ok t{b}_{g} [{o}]"), (None, None) => "true".into(), _ => "false".into() }))); case_no += 1; sum.evaluations += 1;
+            sum.bump("statement:GeneralizedQuad");
+            // strict triple / quad
+            if let Some(t) = rio_triple(tr) {
+                let t = Trusted(*t);
+                chk("rio::Triple s/p/o", [coq_term(t.s()), coq_term(t.p()), coq_term(t.o())], None, &None);
+                chk("rio::Triple to_s/to_p/to_o", [coq_term(t.to_s()), coq_term(t.to_p()), coq_term(t.to_o())], None, &None);
+                chk("rio::Triple to_spo", t.to_spo().map(|y| coq_term(y)), None, &None);
+                chk("rio::Triple spo", t.spo().map(|y| coq_term(y)), None, &None);
+                // graph name of the strict quad: an IRI or a blank node of the pool (three times out of four), or the default graph
+                let cand: Vec<usize> = (0..pool.len()).filter(|g| rio_gname(&pool[*g].st).is_some()).collect();
+                let gi = if cand.is_empty() || r.chance(1, 4) { None } else { Some(cand[r.below(cand.len())]) };
+                let gname = gi.and_then(|g| rio_gname(&pool[g].st)); let eg = gi.map(|g| coq_term(&pool[g].st));
+                let q = Trusted(rio::Quad { subject: t.subject, predicate: t.predicate, object: t.object, graph_name: gname });
+                chk("rio::Quad s/p/o/g", [coq_term(q.s()), coq_term(q.p()), coq_term(q.o())], Some(q.g().map(|y| coq_term(y))), &eg);
+                chk("rio::Quad to_s/to_p/to_o/to_g", [coq_term(q.to_s()), coq_term(q.to_p()), coq_term(q.to_o())], Some(q.to_g().map(|y| coq_term(y))), &eg);
+                { let (spo, g) = q.to_spog(); chk("rio::Quad to_spog", spo.map(|y| coq_term(y)), Some(g.map(|y| coq_term(y))), &eg); }
+                sum.bump("statement:rio::Triple+Quad");
+            }
+            drop(chk);
+            for d in bad { sum.oracle_failures.push((format!("{b}"), format!("statement built from {:?}: {d}", x.st))); }
+        } }
+        for d in directed_native_fails() { sum.oracle_failures.push((format!("{b}"), d)); }
+        sum.bump_by("directed native conversion", 30 * 3 + 22 + 5 + 5);
+        // ---- the checked constructors refuse text that is no tag / label / name ----
+        { let g = r.ps(&["", " ", "en ", "-en", "en-", "en--us", "1n", "\u{e9}", "en_US", "a.b"]); match LanguageTag::new(g) { Err(e) if e.0 == g => {}, other => sum.oracle_failures.push((format!("{b}"), format!("LanguageTag::new({g:?}) = {other:?}, expected an error carrying the text"))) }
+          let l = r.ps(&["", "a b", ".a", "a.", "-a", "a:b", " "]); match BnodeId::new(l) { Err(e) if e.0 == l => {}, other => sum.oracle_failures.push((format!("{b}"), format!("BnodeId::new({l:?}) = {other:?}, expected an error carrying the text"))) }
+          let n = r.ps(&["", "a b", "a-b", "a.b", "?a", "\u{b7}a", " "]); match VarName::new(n) { Err(e) if e.0 == n => {}, other => sum.oracle_failures.push((format!("{b}"), format!("VarName::new({n:?}) = {other:?}, expected an error carrying the text"))) }
+          let k = r.ps(&["integer", "string", "boolean", "double"]); match GenericLiteral::<String>::try_from_term(&pool[0].st) { Ok(l) if pool[0].st.is_literal() && Term::eq(&l, &pool[0].st) => {}, Err(_) if !pool[0].st.is_literal() => {}, other => sum.oracle_failures.push((format!("{b}"), format!("GenericLiteral::try_from_term({:?}) = {other:?}", pool[0].st))) }
+          let _ = k;
+          for x in pool.iter().filter(|x| !x.st.is_literal()).take(3) { if let Ok(l) = GenericLiteral::<Box<str>>::try_from_term(&x.st) { sum.oracle_failures.push((format!("{b}"), format!("GenericLiteral::try_from_term accepts the non-literal {:?} (gives {l:?})", x.st))); } }
+          if !graph_name_eq(None::<&ST>, None::<ArcTerm>) || !graph_name_eq(None::<i32>, None::<&ST>) { sum.oracle_failures.push((format!("{b}"), "graph_name_eq(None, None) is false: the default graph is not equal to itself".into())); }
+          cases.push((case_no, format!("gname_ok None None {}", coq_bool(graph_name_eq(None::<&ST>, None::<&ST>))))); case_no += 1; sum.evaluations += 1; }
+        // ---- the stashes hold exactly the strings of the terms copied into them, each once ----
+        { let mut strs = std::collections::BTreeSet::new();
+          fn collect(st: &ST, out: &mut std::collections::BTreeSet<String>) { match st {
+              SimpleTerm::Iri(i) => { out.insert(i.as_str().to_string()); } SimpleTerm::BlankNode(l) => { out.insert(l.as_str().to_string()); } SimpleTerm::Variable(n) => { out.insert(n.as_str().to_string()); }
+              SimpleTerm::LiteralDatatype(l, d) => { out.insert(l.to_string()); out.insert(d.as_str().to_string()); } SimpleTerm::LiteralLanguage(l, g) => { out.insert(l.to_string()); out.insert(g.as_str().to_string()); }
+              SimpleTerm::Triple(tr) => for c in tr.iter() { collect(c, out) } } }
+          for x in &pool { collect(&x.st, &mut strs); }
+          let ok = |len: usize, empty: bool, has: &dyn Fn(&str) -> bool| len == strs.len() && empty == strs.is_empty() && strs.iter().all(|t| has(t)) && !has("\u{1}never copied");
+          if !ok(arc_stash.len(), arc_stash.is_empty(), &|t| arc_stash.get(t).is_some_and(|a| &**a == t)) { sum.oracle_failures.push((format!("{b}"), format!("ArcStrStash holds {} strings, the copied terms are made of {}", arc_stash.len(), strs.len()))); }
+          if !ok(rc_stash.len(), rc_stash.is_empty(), &|t| rc_stash.get(t).is_some_and(|a| &**a == t)) { sum.oracle_failures.push((format!("{b}"), format!("RcStrStash holds {} strings, the copied terms are made of {}", rc_stash.len(), strs.len()))); }
+          if !ArcStrStash::default().is_empty() || RcStrStash::new().len() != 0 { sum.oracle_failures.push((format!("{b}"), "a new stash is not empty".into())); } }
         // laws on triples of values
         let n = pool.len();
         for i in 0..n { for j in 0..n {
